@@ -17,3 +17,4 @@ OBLIGATIONS = OBLIGATIONS + [K.INFO_TOOLS]
 OBLIGATIONS = OBLIGATIONS + [K.ZOOMCOUNT_SIBS]
 OBLIGATIONS = OBLIGATIONS + [K.PROCESSOR_ARGS]
 OBLIGATIONS = OBLIGATIONS + [K.PROCESS_DATA]
+OBLIGATIONS = OBLIGATIONS + [K.DEPTH_PRECISION]
